@@ -85,7 +85,7 @@ def run(res, tier):
 
     # ---- check_loop: Err iff the issuing CA or one of its ancestors carries the key ---------------------
     # (whatever the shape: recursive helper or loop; the chain is laid out in memory, Arc is transparent)
-    DEPTH = 3
+    DEPTH = 3 if tier == "quick" else 6
     body = E.prog.find("src/engine.rs", "CaCert", "check_loop")
     i_cert = fields.index("cert")
     helpers = sorted(set(re.sub(r".*::", "", nm) for nm in E.prog.bodies
@@ -179,7 +179,7 @@ def run(res, tier):
     res.distinct += n_total
     res.bounds += [
         "CaCert::chain: issuer depth and max depth are arbitrary 64-bit values (overflow case included)",
-        "check_loop: the issuing CA with 0..3 ancestors above it (parent links and all key identifiers symbolic): the "
+        "check_loop: the issuing CA with 0..3 (thorough: 0..6) ancestors above it (parent links and all key identifiers symbolic): the "
         "result is Err exactly when the child's key identifier equals that of the issuing CA or one of its ancestors "
         "up to and including the trust anchor; deeper chains repeat the same step",
     ]
